@@ -56,14 +56,14 @@ var props = []*PropDef{
 	},
 	{
 		ID:     "C03",
-		Funcs:  []string{"aztec.stuffBits"},
+		Funcs:  []string{"aztec.stuffBits", "aztec.bitsToWords", "aztec.generateCheckWords", "aztec.generateModeMessage"},
 		Unwind: []*Unwinder{unwAztec},
 		Tables: []string{"aztec/tables", "gf/fields"},
 		Harness: []Harness{
 			{Pkg: "aztec", File: "c03_aztec_test.go", Run: "^TestVerifC03$", Bound: boundedNote + "full round trip through the independent ISO 24778 reader aztecspec.Decode (high-level encoder, stuffing, layer selection, check words, mode message): all 36 explicit sizes and automatic sizing, 13 alphabets, binary-shift boundaries 31/32/62/63/2078/2079, capacity +-2 per format, seeded random contents; empty payload excluded (known finding)"},
 		},
-		Assumptions: []string{asmBitlist, asmStages, asmRS},
-		Note:        "[C] for all 36 explicit sizes: the drawing part of EncodeWithColor (data spiral through alignmentMap, mode message ring, bullseye, orientation marks, reference grid) equals the independent ISO layout module by module for symbolic message/mode bits; word size and total bits per size are the ISO values; explicit layer request honoured. [T] latch/shift/character tables decode (under the spec decoder) to what they claim; word_size and totalBitsInLayer against ISO.",
+		Assumptions: []string{asmBitlist, asmStages, asmRS, "NewGaloisField is used through a trusted shape contract (size and base as requested); the table contents are lemma gf/fields"},
+		Note:        "[C] for all 36 explicit sizes: the drawing part of EncodeWithColor (data spiral through alignmentMap, mode message ring, bullseye, orientation marks, reference grid) equals the independent ISO layout module by module for symbolic message/mode bits; word size and total bits per size are the ISO values; explicit layer request honoured. [T] latch/shift/character tables decode (under the spec decoder) to what they claim; word_size and totalBitsInLayer against ISO. [P] generateModeMessage: layers-1 and data words-1 in binary at the head of a 28/40-bit message; generateCheckWords: the message is the data words followed by the Reed-Solomon words, totalBits in all, data bits unchanged (word sizes 4, 6, 8; for 10 and 12 only the length is claimed); bitsToWords: word values as binary numbers, most significant bit first; stuffBits: length bounds.",
 	},
 	{
 		ID:     "C04",
@@ -177,7 +177,7 @@ var props = []*PropDef{
 	},
 	{
 		ID:     "C12",
-		Funcs:  []string{"pdf417.(securitylevel).Compute", "aztec.stuffBits"},
+		Funcs:  []string{"pdf417.(securitylevel).Compute", "aztec.stuffBits", "aztec.generateCheckWords"},
 		Unwind: []*Unwinder{unwPDF, unwDM, unwQR, unwQRBlocks, unwSelect, unwAztec},
 		Only:   map[string]string{"aztec": `/(ecc-honoured|fits|words|totalbits|wordsize|stuff-wordsize)$|/pre/aztec\.generateCheckWords`},
 		Tables: []string{"qr/versionInfos", "qr/formatInfos", "dm/codeSizes", "pdf417/tables"},
